@@ -16,7 +16,7 @@ pub fn prop11() -> Prop {
                are placed at random user addresses (including right below xFE00). The machine is stepped until PC is back at the word after the TRAP in user mode (bounded). Contract oracle, independent of the reference machine: display delta = exactly the expected bytes \
                (R0 low byte; string up to the zero word; packed low-then-high up to the first zero byte; 'Input character: ' + byte), keyboard consumed = 1 for GETC/IN else 0, R0 = the byte for GETC/IN, every other register, the whole PSR and every word of x3000-xFDFF unchanged. \
                HALT: run() returns Ok with hit_halt(), no output, and the instruction after it never runs. Non-trivial = every call; distinct = (trap, registers, string) hash.",
-        assumptions: &["keyboard has at least one byte queued when GETC/IN is called (otherwise the routine polls forever by design)", "PUTS strings hold one byte per word (high byte zero)"],
+        assumptions: &["keyboard has at least one byte queued when GETC/IN is called (otherwise the routine polls forever by design)", "PUTS emits the low byte of each word up to the first all-zero word (a quarter of the PUTS strings carry junk in the high byte)"],
         run: run11, guard: guard11,
         level_text: "Runtime contract monitoring of the real OS image executing on the real simulator, tens of thousands (quick) to millions (thorough) of trap calls with randomized machine state.",
         level_note: "Only the six documented traps; contract written from the property text, not from the OS source.",
@@ -39,8 +39,9 @@ pub fn prop12() -> Prop {
     }
 }
 
-fn mk_sim(real: bool, fill: u16, kbd: &[u8]) -> (Simulator, BufferedKeyboard, BufferedDisplay) {
-    let mut sim = Simulator::new(SimFlags { use_real_traps: real, machine_init: MachineInitStrategy::Known { value: fill }, ..Default::default() });
+fn mk_sim(real: bool, fill: u16, kbd: &[u8]) -> (Simulator, BufferedKeyboard, BufferedDisplay) { mk_sim_cfg(real, fill, kbd, false, false) }
+fn mk_sim_cfg(real: bool, fill: u16, kbd: &[u8], strict: bool, ign: bool) -> (Simulator, BufferedKeyboard, BufferedDisplay) {
+    let mut sim = Simulator::new(SimFlags { use_real_traps: real, strict, ignore_privilege: ign, machine_init: MachineInitStrategy::Known { value: fill }, ..Default::default() });
     let kb = BufferedKeyboard::default(); kb.get_buffer().write().unwrap().extend(kbd.iter().copied()); sim.device_handler.set_keyboard(kb.clone());
     let ds = BufferedDisplay::default(); sim.device_handler.set_display(ds.clone());
     (sim, kb, ds)
@@ -52,7 +53,11 @@ fn run11(ctx: &mut Ctx) {
         let real = idx & 1 == 1;
         let trap = 0x20 + (idx / 2 % 6) as u16;
         let kbd: Vec<u8> = (0..1 + rng.usize(4)).map(|_| rng.next() as u8).collect();
-        let (mut sim, kb, ds) = mk_sim(real, rng.u16(), &kbd);
+        // a quarter of the calls run in strict mode with some caller registers never written (their value is the machine's fill
+        // value, still uninitialized): the routines save and restore them without using them, so the contract is unchanged
+        let strict = rng.chance(1, 4);
+        let fill = rng.u16();
+        let (mut sim, kb, ds) = mk_sim_cfg(real, fill, &kbd, strict, false);
         // where the call sits
         let a: u16 = match rng.below(5) { 0 => 0x3000, 1 => 0xFDFE, _ => 0x3000 + rng.below(0xCDF0) as u16 };
         sim.mem[a] = Word::new_init(0xF000 | trap);
@@ -61,11 +66,17 @@ fn run11(ctx: &mut Ctx) {
         let mut zero_low_terminator = false;
         let slen = match rng.below(6) { 0 => 0, 1 => 1, 2 => 2, _ => rng.usize(41) };
         let bytes: Vec<u8> = (0..slen).map(|_| 1 + rng.below(255) as u8).collect();
-        let words: Vec<u16> = if trap == 0x24 { let mut w: Vec<u16> = bytes.chunks(2).map(|c| c[0] as u16 | ((c.get(1).copied().unwrap_or(0) as u16) << 8)).collect(); if bytes.len() % 2 == 0 { if rng.chance(1, 3) { w.push((1 + rng.below(255) as u16) << 8); w.push(0x4141); zero_low_terminator = true; } else { w.push(0); } } w } else { let mut w: Vec<u16> = bytes.iter().map(|b| *b as u16).collect(); w.push(0); w };
+        // PUTS prints the low byte of every word up to the first zero *word*: some strings carry junk (including bit 15) in the high byte
+        let high_junk = trap == 0x22 && slen > 0 && rng.chance(1, 4);
+        let words: Vec<u16> = if high_junk { let mut w: Vec<u16> = bytes.iter().map(|b| *b as u16 | if rng.bool() { (rng.below(256) as u16) << 8 } else { 0 }).collect(); let k = rng.usize(w.len()); w[k] |= 0x8000; w.push(0); w } else if trap == 0x24 { let mut w: Vec<u16> = bytes.chunks(2).map(|c| c[0] as u16 | ((c.get(1).copied().unwrap_or(0) as u16) << 8)).collect(); if bytes.len() % 2 == 0 { if rng.chance(1, 3) { w.push((1 + rng.below(255) as u16) << 8); w.push(0x4141); zero_low_terminator = true; } else { w.push(0); } } w } else { let mut w: Vec<u16> = bytes.iter().map(|b| *b as u16).collect(); w.push(0); w };
         let s_addr: u16 = loop { let s = match rng.below(4) { 0 => 0xFE00 - words.len() as u16, 1 => 0x3002, _ => 0x3000 + rng.below(0xCE00 - words.len() as u64) as u16 }; let e = s + words.len() as u16; if e <= 0xFE00 && (e <= a || s > a + 1) { break s; } };
         for (i, w) in words.iter().enumerate() { sim.mem[s_addr + i as u16] = Word::new_init(*w); }
         let mut regs = [0u16; 8];
-        for (i, r) in regs.iter_mut().enumerate() { *r = rng.u16(); sim.reg_file[reg(i)].set(*r); }
+        let mut unwritten = 0u32;
+        for (i, r) in regs.iter_mut().enumerate() {
+            if strict && i != 0 && rng.chance(1, 2) { *r = fill; unwritten |= 1 << i; continue; }
+            *r = rng.u16(); sim.reg_file[reg(i)].set(*r);
+        }
         if trap == 0x22 || trap == 0x24 { regs[0] = s_addr; sim.reg_file[reg(0)].set(s_addr); }
         let psr = 0x8000 | ((rng.below(8) as u16) << 8) | *rng.pick(&[1u16, 2, 4]);
         sim.write_mem(0xFFFC, Word::new_init(psr), priv_ctx()).unwrap();
@@ -75,7 +86,7 @@ fn run11(ctx: &mut Ctx) {
         let tag = if real { "real" } else { "virtual" };
         ctx.eval();
         ctx.nontrivial(crate::rng::hash_bytes(format!("{trap}{regs:?}{bytes:?}{a}{s_addr}").as_bytes()));
-        let case = || Json::obj().set("trap", name).set("real_traps", real).set("call_address", format!("x{a:04X}")).set("regs", format!("{regs:04X?}")).set("psr", format!("x{psr:04X}")).set("kbd", format!("{kbd:?}")).set("string_at", format!("x{s_addr:04X}")).set("string_bytes", format!("{bytes:?}"));
+        let case = || Json::obj().set("trap", name).set("real_traps", real).set("call_address", format!("x{a:04X}")).set("regs", format!("{regs:04X?}")).set("psr", format!("x{psr:04X}")).set("kbd", format!("{kbd:?}")).set("strict", strict).set("unwritten_register_mask", unwritten as u64).set("string_at", format!("x{s_addr:04X}")).set("string_bytes", format!("{bytes:?}"));
         if trap == 0x25 {
             let r = crate::monitor::guard(|| sim.run_with_limit(100_000));
             match r { Ok(Ok(())) if sim.hit_halt() => {}, other => { ctx.violation(&format!("halt-does-not-stop:{tag}"), format!("run() = {:?}, hit_halt = {}", other.map(|r| r.map_err(|e| err_kind(&e))).map_err(|p| p.msg), sim.hit_halt()), case()); return; } }
@@ -114,6 +125,8 @@ fn run11(ctx: &mut Ctx) {
         if sim.psr().get() != psr { ctx.violation(&format!("psr-not-preserved:{name}"), format!("PSR x{:04X}, before x{psr:04X}", sim.psr().get()), case()); return; }
         if let Some(k) = (0..before.len()).find(|k| sim.mem[0x3000 + *k as u16].get() != before[*k]) { ctx.violation(&format!("user-memory-changed:{name}"), format!("mem[x{:04X}] changed", 0x3000 + k), case()); return; }
         ctx.count(&format!("calls.{name}.{tag}"));
+        if strict && unwritten != 0 { ctx.count("calls.strict-with-unwritten-registers"); }
+        if high_junk { ctx.count("strings.PUTS.words-with-high-byte-set"); }
         if zero_low_terminator { ctx.count("strings.PUTSP.terminated-by-zero-low-byte-with-nonzero-high-byte"); }
         if trap == 0x22 || trap == 0x24 { ctx.count(&format!("strings.{name}.len-{}", match slen { 0 => "0", 1 => "1", _ if slen % 2 == 1 => "odd", _ => "even" })); }
         if ctx.want_sample() && slen > 2 && slen < 12 && (trap == 0x24 || trap == 0x23) { ctx.sample(case().set("display", format!("{:?}", String::from_utf8_lossy(&disp))).set("steps", steps)); }
@@ -123,13 +136,15 @@ fn guard11(m: &Merged, _t: Tier) -> Vec<String> {
     let mut out = vec![];
     for n in ["GETC", "OUT", "PUTS", "IN", "PUTSP", "HALT"] { for t in ["real", "virtual"] { need(m, &mut out, &format!("calls.{n}.{t}"), 100); } }
     need(m, &mut out, "strings.PUTSP.terminated-by-zero-low-byte-with-nonzero-high-byte", 20);
+    need(m, &mut out, "strings.PUTS.words-with-high-byte-set", 20);
+    need(m, &mut out, "calls.strict-with-unwritten-registers", 100);
     for n in ["PUTS", "PUTSP"] { for l in ["0", "1", "odd", "even"] { need(m, &mut out, &format!("strings.{n}.len-{l}"), 20); } }
     out
 }
 
 struct End { result: Result<(), String>, halted: bool, display: Vec<u8>, regs: [u16; 8], user: Vec<u16>, instrs: u64 }
-fn run_prog(text: &str, real: bool, fill: u16, kbd: &[u8]) -> Option<End> {
-    let (mut sim, _kb, ds) = mk_sim(real, fill, kbd);
+fn run_prog(text: &str, real: bool, fill: u16, kbd: &[u8], strict: bool, ign: bool) -> Option<End> {
+    let (mut sim, _kb, ds) = mk_sim_cfg(real, fill, kbd, strict, ign);
     let ast = lc3_ensemble::parse::parse_ast(text).ok()?;
     let obj = lc3_ensemble::asm::assemble(ast).ok()?;
     sim.load_obj_file(&obj).ok()?;
@@ -141,14 +156,20 @@ fn run_prog(text: &str, real: bool, fill: u16, kbd: &[u8]) -> Option<End> {
 fn run12(ctx: &mut Ctx) {
     let n = ctx.tier.pick(4_000, 400_000);
     ctx.cases(0, n, |ctx, rng, _| {
-        let opts = ProgOpts { faults: rng.chance(2, 5), unbalanced: rng.chance(1, 5), ..ProgOpts::default() };
+        // configuration: a quarter of the pairs run in strict mode (programs that write every register they read, half of them
+        // never touching R6), an eighth with privilege checks ignored (halting programs only: with checks off a "faulting"
+        // program can read the supervisor stack, which legitimately differs between the two settings)
+        let (strict, ign) = match rng.below(8) { 0 | 1 => (true, false), 2 => (false, true), _ => (false, false) };
+        let opts = if strict { ProgOpts { faults: rng.chance(2, 5), strict_clean: true, no_stack: rng.bool(), ..ProgOpts::default() } }
+            else if ign { ProgOpts { faults: false, unbalanced: false, ..ProgOpts::default() } }
+            else { ProgOpts { faults: rng.chance(2, 5), unbalanced: rng.chance(1, 5), ..ProgOpts::default() } };
         let prog = gen_user_prog(rng, &opts);
         let kbd: Vec<u8> = (0..prog.kbd_needed + rng.usize(2)).map(|_| 1 + rng.below(255) as u8).collect();
         let fill = rng.u16();
         ctx.eval();
-        let case = || Json::obj().set("program", prog.text.as_str()).set("kbd", format!("{kbd:?}")).set("fill", fill);
-        let Some(Some(v)) = ctx.no_panic("run(virtual)", case, || run_prog(&prog.text, false, fill, &kbd)) else { ctx.count("not-runnable"); return };
-        let Some(Some(r)) = ctx.no_panic("run(real)", case, || run_prog(&prog.text, true, fill, &kbd)) else { ctx.count("not-runnable"); return };
+        let case = || Json::obj().set("program", prog.text.as_str()).set("kbd", format!("{kbd:?}")).set("fill", fill).set("strict", strict).set("ignore_privilege", ign);
+        let Some(Some(v)) = ctx.no_panic("run(virtual)", case, || run_prog(&prog.text, false, fill, &kbd, strict, ign)) else { ctx.count("not-runnable"); return };
+        let Some(Some(r)) = ctx.no_panic("run(real)", case, || run_prog(&prog.text, true, fill, &kbd, strict, ign)) else { ctx.count("not-runnable"); return };
         ctx.nontrivial_str(&prog.text);
         match &v.result {
             Ok(()) if v.halted => {
@@ -157,6 +178,8 @@ fn run12(ctx: &mut Ctx) {
                 for i in 0..6 { if r.regs[i] != v.regs[i] { ctx.violation("registers-differ:halting", format!("R{i}: real x{:04X}, virtual x{:04X}", r.regs[i], v.regs[i]), case()); return; } }
                 if let Some(k) = (0..v.user.len()).find(|k| v.user[*k] != r.user[*k]) { ctx.violation("user-memory-differs:halting", format!("mem[x{:04X}]: real x{:04X}, virtual x{:04X}", 0x3000 + k, r.user[k], v.user[k]), case()); return; }
                 ctx.count("pairs.halting");
+                if strict { ctx.count(if opts.no_stack { "pairs.halting.strict.R6-never-written" } else { "pairs.halting.strict" }); }
+                if ign { ctx.count("pairs.halting.ignore-privilege"); }
                 if r.instrs <= v.instrs { ctx.violation("real-halt-runs-no-os-code", "the real run executed no more instructions than the virtual one, so HALT did not go through the OS", case()); return; }
             }
             Ok(()) => { ctx.count("virtual-run-hit-limit"); return; }
@@ -166,6 +189,7 @@ fn run12(ctx: &mut Ctx) {
                 let mut want = v.display.clone(); want.extend_from_slice(msg);
                 if r.display != want { ctx.violation(&format!("exception-message-wrong:{kind}"), format!("real display {:?}, expected {:?}", String::from_utf8_lossy(&r.display), String::from_utf8_lossy(&want)), case()); return; }
                 ctx.count(&format!("pairs.faulting.{kind}"));
+                if strict { ctx.count("pairs.faulting.strict"); }
             }
         }
         ctx.count(&format!("ending.{}", prog.ending.name()));
@@ -176,6 +200,7 @@ fn run12(ctx: &mut Ctx) {
 fn guard12(m: &Merged, _t: Tier) -> Vec<String> {
     let mut out = vec![];
     need(m, &mut out, "pairs.halting", 500);
+    for k in ["pairs.halting.strict", "pairs.halting.strict.R6-never-written", "pairs.halting.ignore-privilege", "pairs.faulting.strict"] { need(m, &mut out, k, 30); }
     for k in ["AccessViolation", "PrivilegeViolation", "IllegalOpcode", "InvalidInstrFormat"] { need(m, &mut out, &format!("pairs.faulting.{k}"), 20); }
     for u in ["PUTS", "PUTSP", "OUT", "GETC/IN", "JSR", "nested-call", "stack-push-pop"] { need(m, &mut out, &format!("uses.{u}"), 50); }
     out
